@@ -142,7 +142,7 @@ def sph_frame(polar, azimuth):
     return ((st * cp, st * sp_, ct), (ct * cp, ct * sp_, -st), (-sp_, cp, 0))
 
 
-def exact_value(expr, expected: Fraction):
+def exact_value(expr, expected: Fraction, rewrite: bool = True):
     """-> (verdict, real value as Fraction or None).  verdict: 'equal' (exactly, by exact rewriting), 'different'
     (exactly, or numerically to 40 digits), 'numeric-equal' (agrees to 40 digits but SymPy could not reduce the
     value to a rational: undecided).  The numeric comparison goes before any expensive simplification, so a wrong
@@ -158,6 +158,8 @@ def exact_value(expr, expected: Fraction):
         close = False
     if not close:
         return "different", None
+    if not rewrite:
+        return "numeric-equal", None
     f = to_fraction(expr)
     if f is None:
         return "numeric-equal", None
